@@ -78,6 +78,9 @@ pub struct StorageCfg {
     pub workers: usize,
     pub http: bool,
     pub recreate_missing_state: bool,
+    /// start the QUIC listener too (same decoders and handlers, its own framing, sender and session clean-up)
+    #[serde(default)]
+    pub quic: bool,
 }
 
 impl Default for StorageCfg {
@@ -99,6 +102,7 @@ impl Default for StorageCfg {
             workers: 2,
             http: false,
             recreate_missing_state: false,
+            quic: false,
         }
     }
 }
@@ -191,7 +195,9 @@ pub fn build_config(dir: &Path, cfg: &StorageCfg, cache: CacheMode) -> ServerCon
     sc.tcp.socket.nodelay = true;
     sc.http.address = "127.0.0.1:0".to_string();
     sc.http.enabled = cfg.http;
-    sc.quic.enabled = false;
+    sc.quic.enabled = cfg.quic;
+    sc.quic.address = "127.0.0.1:0".to_string();
+    sc.quic.certificate.self_signed = true;
     sc.message_saver.enabled = false;
     sc.heartbeat.enabled = false;
     sc.personal_access_token.cleaner.enabled = false;
@@ -210,6 +216,7 @@ pub struct ServerInstance {
     pub system: SharedSystem,
     pub tcp_addr: SocketAddr,
     pub http_addr: Option<SocketAddr>,
+    pub quic_addr: Option<SocketAddr>,
     pub maintain_cmd: MaintainMessagesCommand,
     pub dir: PathBuf,
     pub config: ServerConfig,
@@ -238,7 +245,7 @@ impl ServerInstance {
         // `System::init` is not `Send` (main.rs runs it with block_on on the main thread): do the same
         // on a dedicated thread; the workers of `rt` run everything that gets spawned.
         let (tx, rx) = tokio::sync::oneshot::channel();
-        type Started = (SharedSystem, SocketAddr, Option<SocketAddr>, MaintainMessagesCommand);
+        type Started = (SharedSystem, SocketAddr, Option<SocketAddr>, Option<SocketAddr>, MaintainMessagesCommand);
         std::thread::Builder::new()
             .name(format!("{SERVER_THREAD_PREFIX}-init"))
             .spawn(move || {
@@ -283,7 +290,8 @@ impl ServerInstance {
                             None
                         };
                         let tcp_addr = server::tcp::tcp_server::start(config.tcp.clone(), system.clone()).await;
-                        Ok::<Started, String>((system, tcp_addr, http_addr, maintain_cmd))
+                        let quic_addr = if config.quic.enabled { Some(server::quic::quic_server::start(config.quic.clone(), system.clone())) } else { None };
+                        Ok::<Started, String>((system, tcp_addr, http_addr, quic_addr, maintain_cmd))
                     })
                 }));
                 let msg = match res {
@@ -308,11 +316,12 @@ impl ServerInstance {
             })
             .map_err(|e| StartError::Harness(format!("thread: {e}")))?;
         match rx.await {
-            Ok(Ok((rt, (system, tcp_addr, http_addr, maintain_cmd)))) => Ok(ServerInstance {
+            Ok(Ok((rt, (system, tcp_addr, http_addr, quic_addr, maintain_cmd)))) => Ok(ServerInstance {
                 rt: Some(rt),
                 system,
                 tcp_addr,
                 http_addr,
+                quic_addr,
                 maintain_cmd,
                 dir: dir.to_path_buf(),
                 config,
